@@ -69,6 +69,11 @@ def _scan(prefix, ns, out, depth):
         try:
             if _is_container(obj):
                 out[key] = _digest(obj)
+            elif obj is None or isinstance(obj, (tuple, frozenset, bool, int, float, complex, str, bytes)):
+                # (added for C15d, additive) a module-level NAME rebound between calls -- `_LAST = None` becoming a tuple,
+                # a counter, a flag -- is state as well, although the value itself is immutable
+                if depth == 0:
+                    out[key + ":value"] = _digest(obj) if isinstance(obj, (tuple, frozenset)) else f"{type(obj).__name__}:{obj!r}"[:80]
             elif callable(obj) and hasattr(obj, "cache_info"):
                 out[key + ":cache"] = str(getattr(obj.cache_info(), "currsize", "?"))
             elif isinstance(obj, type) and depth == 0 and getattr(obj, "__module__", None) == prefix:
